@@ -104,6 +104,28 @@ OVERLAY_LL = {"runner/llamarunner/zz_verif_c07_test.go": "runner_llamarunner/zz_
 
 MAXI32 = 2147483647
 
+# Branches of the model that the theorems speak about (Properties/C07.lean, C07Batch.lean, C07Stop.lean), counted on
+# what the REAL code did in the history driver: the check fails closed when the generator never reaches one.
+REQUIRED_COUNTERS = [
+    "req_prefix_reused",          # loadCacheSlot with numPast > 0 (prefix_reuse_sound, load_facts)
+    "req_reuse_all_but_one",      # the "leave one input" decrement (loadTail)
+    "kv_copyprefix",              # findBest fork (coherent_find, SInv_load)
+    "req_prompt_truncated",       # newSequence_spec, prompts longer than the context
+    "busy_err", "busy_panic",     # no free slot: noSlots / nilDeref (no_free_slot_no_load)
+    "br_shift_ok",                # shiftCacheSlot success path inside innerLoop (shift_ok_shape, innerLoop_IL)
+    "br_shift_failed_reprocess",  # failure path + `continue` (shift_re_shape, innerLoop_IL)
+    "br_mixed_batch",             # >= 2 sequences in one Forward (store_PC)
+    "br_multi_input_run",         # a run of >= 2 inputs of one sequence (positions record + pending)
+    "br_batch_full_inputs_left",  # batch-size break with inputs left (innerLoop first branch)
+    "step_defrag",                # Forward after a defrag: the adopted layout (AdoptOK / HintsOK)
+    "step_empty_batch",           # processBatch with nothing to decode (processBatch_SInv first case)
+    "br_done_numpredict",         # removeSequence inside batch assembly (PInv_release)
+    "br_done_eos",                # phase3Seq EOS branch (R_finish, plain release)
+    "br_done_stop_string",        # phase3Seq stop branch
+    "stop_cut_removed_tokens",    # ... with a real cut of the record (stop_cut_record)
+    "swa_evicted",                # sliding-window eviction (canResume_sound / load_window_present context)
+]
+
 
 def reset_end(ctx):
     """Tie 1: the end index the failure path of ShiftCacheSlot passes to Remove(slot.Id, 0, .)."""
@@ -203,6 +225,11 @@ def run(ctx):
         ctx.read_stats(outdir)
         ctx.l1(outdir, label="L1-llamarunner-histories")
         ctx.classify(ctx.l2(outdir))
+    if not ctx.replay and not ctx.violations:
+        missing = [k for k in REQUIRED_COUNTERS if ctx.stats.get(k, 0) == 0]
+        if missing:
+            ctx.violation("correspondence-coverage", "", "branches the theorems speak about were never exercised by "
+                          "the history driver on the real code: " + ", ".join(missing), no_input=True)
     ctx.coverage["llamarunner_replayed_source_sha1"] = ll_replayed_sha()
     ctx.assumptions += [
         "cell placement after a defrag is taken from the real kvcache.Causal (C06 owns placement and the data "
